@@ -125,8 +125,9 @@ def finish(meta, patch, demo_src, keep):
     meta["check_history"] = hist
     if qualifies or keep:
         os.makedirs(d, exist_ok=True)
-        shutil.copy(patch, os.path.join(d, "patch.diff"))
-        shutil.copy(demo_src, os.path.join(d, "demo_test.go.txt"))
+        for src, name in ((patch, "patch.diff"), (demo_src, "demo_test.go.txt")):
+            if os.path.abspath(src) != os.path.abspath(os.path.join(d, name)):
+                shutil.copy(src, os.path.join(d, name))
         json.dump(meta, open(os.path.join(d, "meta.json"), "w"), indent=1)
     print(json.dumps({k: meta.get(k) for k in ("property", "label", "qualifies", "patch_applies", "compiles", "demo_passes_without_change",
                                                  "demo_fails_with_change", "existing_suites_pass_with_change", "caught")}, indent=None))
